@@ -285,3 +285,12 @@ Proof. intros H. unfold lf_raw_query. cbn [lf_join_amp]. destruct q; [contradict
 
 Lemma lf_raw_query_none : lf_raw_query [] = None.
 Proof. reflexivity. Qed.
+
+(* the built-in handler answers unless the application asked for the request explicitly *)
+Lemma lf_wk_target_builtin registered unk_get unk_flag :
+  lf_wk_target registered unk_get unk_flag = LfToBuiltin <->
+  registered = false /\ (unk_flag = false \/ unk_get = false).
+Proof.
+  unfold lf_wk_target. destruct registered, unk_flag, unk_get; cbn; split; intros H;
+    try discriminate; try tauto; destruct H as (H1 & [H2|H2]); discriminate.
+Qed.
